@@ -29,8 +29,17 @@ def backends():
     return ["cbc", "glpk_noimport"] if A.cbc_available() else ["glpk_noimport"]
 
 
+LONELY = [(99, 100, 0, 3), (100, 99, 2, 3), (99, 150, 1, 2), (149, 150, 0, 2)]
+
+
 def shards(tier, seed):
-    return A.make_shards(tier, "struct", extra={"full": tier == "thorough", "dup_every": 7})
+    tasks = A.make_shards(tier, "struct", extra={"full": tier == "thorough", "dup_every": 7})
+    # large inputs: > 10 000 / 15 000 / 22 500 candidates where the candidates that arrive when a result buffer is
+    # full are the ONLY candidate of some unit (a lost candidate makes the program infeasible or the partition wrong)
+    fams = LONELY if tier == "thorough" else LONELY[:3]
+    for f in fams:
+        tasks.append({"lonely": list(f), "full": False})
+    return tasks
 
 
 def judge(spec, obs):
@@ -58,6 +67,25 @@ def run(task):
     res = {"evaluations": 0, "transitions": 0, "traces": 0, "state_set": [], "nontrivial": [], "outcomes": [],
            "samples": [], "violations": []}
     full = task.get("full", False)
+    if "lonely" in task:
+        from ..universe import fam_block_lonely
+        spec = fam_block_lonely(*task["lonely"])
+        for recipe in ({"k": "pos", "de": 1.0}, {"k": "comb", "a": 1.0, "b": 1.0, "de": 0.7}):
+            for backend in backends()[:1] if recipe["k"] == "comb" else backends():
+                obs = A.eval_case(spec, recipe, backend, KIND)
+                res["evaluations"] += 1
+                res["transitions"] += 1
+                res["traces"] += 1
+                key = h(["lonely", task["lonely"], recipe, backend])
+                res["state_set"].append(key)
+                msg = judge(spec, obs)
+                if msg:
+                    res["violations"].append({"msg": msg[:300], "case": {"lonely": task["lonely"], "recipe": recipe,
+                                                                          "backend": backend, "kind": KIND}})
+                else:
+                    res["nontrivial"].append(key)
+                    res["outcomes"].append(h(["lonely", len(obs["nts"])]))
+        return res
     for spec in A.iter_task_specs(task):
         labels = A.spec_label_set(spec)
         sp = special(spec)
@@ -98,6 +126,11 @@ def run(task):
 
 
 def replay(case):
+    if "lonely" in case:
+        from ..universe import fam_block_lonely
+        spec = fam_block_lonely(*case["lonely"])
+        msg = judge(spec, A.eval_case(spec, case["recipe"], case["backend"], KIND))
+        return [{"msg": msg[:300], "case": case}] if msg else []
     obs = A.eval_case(case["spec"], case["recipe"], case["backend"], KIND, warm=case.get("warm"))
     msg = judge(case["spec"], obs)
     return [{"msg": msg, "case": case}] if msg else []
